@@ -43,7 +43,7 @@ def draw_open(rng, prof, sh, first=False, ro=False):
         sh.force_recover = False
     ver = rng.choice(prof.get('versions', [2]))
     keeprw = rng.choice([0, 1]) if len(prof.get('versions', [2])) > 1 else 0
-    eager = 1 if (len(prof.get('versions', [2])) > 1 and rng.random() < 0.25 and not ro) else 0
+    eager = 1 if (len(prof.get('versions', [2])) > 1 and rng.random() < 0.25) else 0
     autosync = 1 if rng.random() < 0.15 else 0
     sh.open, sh.ro = True, ro
     return 'open %d %d %d %d %d %d %d %d %d %d' % (1 if ro else 0, keys, times, autosync, roll, chk, rec,
@@ -64,6 +64,9 @@ def draw_msg(rng, prof, sh):
     r = rng.random()
     if r < prof.get('p_tomb', 0.15):
         v = '-'
+    elif prof.get('p_bigval') and rng.random() < prof['p_bigval']:
+        # large messages (read paths that treat bodies of a page or more differently)
+        v = hexbytes(rng, rng.choice([4060, 4096, 4200, 9000]))
     else:
         v = hexbytes(rng, rng.choice([1, 2, 3, 8, 20, 40]))
     return '%d|%s|%s' % (t, k, v), t
@@ -279,6 +282,10 @@ def between_sessions(rng, prof, sh, note):
             k = rng.randrange(1, 4)
             ops.append('rmindex ' + ','.join(str(rng.randrange(0, 6)) for _ in range(k)))
             note('rmindex_some')
+        if rng.random() < 0.5:
+            # a process that died inside index.Write left a temporary file beside the (now missing) index
+            ops[-1] += ' stale'
+            note('rmindex_with_stale_tmp')
     if len(prof.get('versions', [2])) > 1 and rng.random() < 0.3:
         ops.append('migrate %d' % rng.choice([1, 2]))
         ops.append('files')
